@@ -98,6 +98,20 @@ func c01Run(c *fw.Case, env *fw.Env) *fw.Obs {
 		o.Violate("columns-differ/"+entry+"/"+class, "stored columns %q, CSV header %q", tc.Table.Columns, cols)
 		return o
 	}
+	if res.ConfiguredOtherKey {
+		o.Ev("commits_on_a_branch_configured_with_another_key", 1)
+	}
+	// "every valid primary-key choice": the stored table carries the key that was chosen, not another one
+	if len(tc.Table.PK) != len(p.T.PK) {
+		o.Violate("stored-key-differs/"+entry+"/"+class, "chosen key %v, the stored table's key is %v (cfg %s)", p.T.PK, tc.Table.PK, cfgString(p.Cfg))
+		return o
+	}
+	for i, k := range tc.Table.PK {
+		if int(k) != p.T.PK[i] {
+			o.Violate("stored-key-differs/"+entry+"/"+class, "chosen key %v, the stored table's key is %v (cfg %s)", p.T.PK, tc.Table.PK, cfgString(p.Cfg))
+			return o
+		}
+	}
 	model := gen.Model(rows, p.T.PK, len(cols))
 	if cl, d := model.Compare(tc.Rows); cl != "" {
 		o.Violate(cl+"/"+entry+"/"+class, "block read-back (cfg %s): %s", cfgString(p.Cfg), d)
